@@ -286,6 +286,9 @@ func (w *PipeWriter) Write(b []byte) (int, error) {
 	s := p.sim
 	total := 0
 	for len(b) > 0 {
+		if w.closed {
+			return total, os.ErrClosed
+		}
 		if p.closed {
 			return total, syscall.EPIPE
 		}
